@@ -57,7 +57,7 @@ func (x *tr) tokresVal(e ast.Expr) string {
 			v := x.coerce(x.expr(ce.Args[c.Arg]), c.Typ)
 			return "(" + strconv.Itoa(c.Tag) + "%Z, " + v.coq + ")"
 		}
-		if v, ok := x.inline(ce); ok {
+		if v, ok := x.inlineAny(ce); ok { // autoinline.go
 			if v.typ != "tokres" {
 				fail("inlined %s does not return a token result", fn)
 			}
